@@ -393,6 +393,30 @@ CONTROLS += [
             "    def replace_xml_element(self, old, new):\n        new.parent_xsd_element = self\n"
             "        self._xml_elements = [new if el == old else el for el in self._xml_elements]\n\n    @property\n    def xml_elements(self):", EL)), None,
       'the leaf swap of replace_child moved into a new public method of the leaf class (behaviour preserving; seeds R2-C10b / R2-C11a are the broken variants)'),
+    C('silent-feature-additions', 'silent', ALL_PROPS, multi(
+        sub("    def find_child(self, name: Union['XMLElement', str], ordered: bool = False) -> 'XMLElement':\n",
+            "    def get_child_names(self, ordered: bool = False):\n        return [child.name for child in self.get_children(ordered=ordered)]\n\n"
+            "    def has_children(self) -> bool:\n        return len(self._unordered_children) > 0\n\n"
+            "    def __repr__(self):\n        return f\"<{self.__class__.__name__} at {hex(id(self))}>\"\n\n"
+            "    def find_child(self, name: Union['XMLElement', str], ordered: bool = False) -> 'XMLElement':\n", XE),
+        sub("        if self.xsd_check:\n            if not self._child_container_tree:\n                raise XMLElementCannotHaveChildrenError()",
+            "        if forward is not None and not isinstance(forward, int):\n"
+            "            raise TypeError(f\"forward must be an int or None, not {type(forward).__name__}\")\n"
+            "        import logging\n        logging.getLogger(__name__).debug(\"adding %s to %s\", child.__class__.__name__, self.__class__.__name__)\n"
+            "        if self.xsd_check:\n            if not self._child_container_tree:\n                raise XMLElementCannotHaveChildrenError()", XE)), None,
+      'new read-only public methods, a __repr__, a debug log line and an early documented TypeError for a non-int forward: every property still holds'),
+    C('silent-upstream-fix-kf01-kf16', 'silent', ['C01', 'C06', 'C09', 'C10', 'C11', 'C19', 'C08'], multi(
+        sub("            selected = same_name_leaves[forward]\n            if selected not in selected_same_name_leaves:\n"
+            "                raise XMLChildContainerChoiceHasAnotherChosenChild('Wrong forwarding')",
+            "            if not isinstance(forward, int) or not -len(same_name_leaves) <= forward < len(same_name_leaves):\n"
+            "                raise XMLChildContainerWrongElementError(f'forward={forward!r} does not select one of {len(same_name_leaves)} leaves')\n"
+            "            selected = same_name_leaves[forward]\n            if selected not in selected_same_name_leaves:\n"
+            "                raise XMLChildContainerChoiceHasAnotherChosenChild('Wrong forwarding')\n"
+            "            if selected.max_is_reached:\n                raise XMLChildContainerMaxOccursError()", CC),
+        sub("    for k, v in node.attrib.items():",
+            "    if node.tail and node.tail.strip():\n        raise ValueError(f\"Text between elements is not allowed: {node.tail.strip()!r} after <{node.tag}>\")\n\n"
+            "    for k, v in node.attrib.items():", PA)), None,
+      'a maintainer repairs two recorded findings (forward is range- and occurrence-checked before the attach; the parser rejects tail text)'),
     C('silent-reformat-all-modules', 'silent', ALL_PROPS, reformat_all_modules(), None, 'whole-program re-formatting'),
     C('silent-rename-all-locals-container', 'silent', ALL_PROPS, rename_all_locals(CC), None, 'every local of xmlchildcontainer.py renamed'),
     C('silent-rename-all-locals-parser', 'silent', ['C08', 'C09', 'C17', 'C19'], rename_all_locals(PA), None, 'every local of parser.py renamed'),
